@@ -431,3 +431,29 @@ def w3_shared_logic(ctx) -> None:
     else:
         ctx.violation("W3", init.node, "the general store must be RecomputingDict(only_equiv=False) and the equivalence store RecomputingDict(only_equiv=True)",
                       construct="RuleDBForgetStrategy.__init__ stores")
+
+
+def w4_pack_iteration(ctx) -> None:
+    """Recomputation replays *the pack*: iterating a StrategyPack must cover every list of
+    strategies it holds (a list left out makes the rules it produced unrecoverable)."""
+    P = ctx.P
+    init = P.need_method("StrategyPack", "__init__", own=True)
+    it = P.need_method("StrategyPack", "__iter__", own=True)
+    ctx.analysed(it)
+    a = init.node.args
+    strat_params = [x.arg for x in a.posonlyargs + a.args + a.kwonlyargs if x.annotation is not None and "CSSstrategy" in norm(x.annotation)]
+    attrs = []
+    for n in walk_local(init.node):
+        if isinstance(n, ast.Assign) and len(n.targets) == 1 and is_self_attr(n.targets[0]):
+            names = {x.id for x in ast.walk(n.value) if isinstance(x, ast.Name)}
+            if names & set(strat_params):
+                attrs.append(n.targets[0].attr)
+    if len(attrs) < 5:
+        raise AnalysisError(f"W4: expected five strategy lists in StrategyPack.__init__, found {attrs}")
+    mentioned = {x.attr for x in ast.walk(it.node) if is_self_attr(x)}
+    missing = sorted(set(attrs) - mentioned)
+    if missing:
+        ctx.violation("W4", it.node, f"StrategyPack.__iter__ leaves out {missing}: the memory-saving database and the forest extractor replay the pack by iterating "
+                      "it, so rules produced by those strategies can never be recomputed", construct="StrategyPack.__iter__ coverage")
+    else:
+        ctx.ok("W4", f"StrategyPack.__iter__ covers every strategy list {sorted(attrs)}")
